@@ -28,12 +28,14 @@ import (
 // c17Kind describes one way of being "another node".
 type c17Kind struct {
 	Name     string
-	Binary   string            // "fxsim" (default toolchain) or "fxsim126" (go1.26.8)
-	Env      []string          // process environment of the replica
-	Synctest bool              // run inside a testing/synctest bubble (fake wall clock)
-	NodeOpts bool              // seeded node-local options
-	Crash    bool              // persistent DB, crashes between FinalizeBlock and Commit, restarts
-	Fixed    map[string]string // fixed node options (app.toml keys)
+	Binary   string                          // "fxsim" (default toolchain) or "fxsim126" (go1.26.8)
+	Env      []string                        // process environment of the replica
+	Synctest bool                            // run inside a testing/synctest bubble (fake wall clock)
+	NodeOpts bool                            // seeded node-local options
+	Crash    bool                            // persistent DB, crashes between FinalizeBlock and Commit, restarts
+	Fixed    map[string]string               // fixed node options (app.toml keys)
+	Base     func() []func(*baseapp.BaseApp) // fixed baseapp options (what the server derives from app.toml)
+	BaseDesc []string
 	What     string
 }
 
@@ -42,17 +44,29 @@ var c17Kinds = []c17Kind{
 	{Name: "proc-gomaxprocs16-gogc1", Binary: "fxsim", Env: []string{"GOMAXPROCS=16", "GOGC=1"}, What: "fresh OS process, GOMAXPROCS=16, GOGC=1 (collector runs all the time)"},
 	{Name: "go126", Binary: "fxsim126", Env: []string{"GOMAXPROCS=4"}, What: "binary built with go1.26.8 (other runtime, swiss-table maps)"},
 	{Name: "go126-synctest", Binary: "fxsim126", Env: []string{"GOMAXPROCS=4"}, Synctest: true, What: "go1.26.8 binary, whole replica (app included) inside a testing/synctest bubble: wall clock starts at 2000-01-01"},
-	{Name: "node-options", Binary: "fxsim", Env: []string{"GOMAXPROCS=3"}, NodeOpts: true, What: "telemetry enabled, other min-gas-price, IAVL cache size / fast node, pruning, inter-block cache, trace, index-events, EVM struct tracer, bypass-min-fee limits (seeded subset)"},
+	{Name: "node-options", Binary: "fxsim", Env: []string{"GOMAXPROCS=3"}, NodeOpts: true, What: "telemetry enabled, other min-gas-price, IAVL cache size / fast node, pruning nothing/default, inter-block cache, trace, index-events, EVM struct tracer, bypass-min-fee limits (seeded subset)"},
 	{Name: "crash-restart", Binary: "fxsim", Env: []string{"GOMAXPROCS=2"}, Crash: true, What: "goleveldb on disk; at seeded blocks the process state is dropped between FinalizeBlock and Commit (or right after Commit), the app is reopened over the same DB and the block re-executed"},
 	// single app.toml options on kinds of their own (so that a finding about one has its own site); in the quick tier every 4th transcript gets one of them
 	{Name: "node-opt-evm-max-tx-gas-wanted", Binary: "fxsim", Env: []string{"GOMAXPROCS=2"}, Fixed: map[string]string{"evm.max-tx-gas-wanted": "500000"}, What: "app.toml evm.max-tx-gas-wanted=500000 (documented as a CheckTx-only limit), nothing else changed"},
 	{Name: "node-opt-evm-tracer-access-list", Binary: "fxsim", Env: []string{"GOMAXPROCS=2"}, Fixed: map[string]string{"evm.tracer": "access_list"}, What: "app.toml evm.tracer=access_list (debug tracer), nothing else changed"},
+	{Name: "node-opt-iavl-cache0-pruning", Binary: "fxsim", Env: []string{"GOMAXPROCS=2"}, BaseDesc: []string{"iavl-cache-size=0", "pruning=everything"},
+		Base: func() []func(*baseapp.BaseApp) {
+			return []func(*baseapp.BaseApp){baseapp.SetIAVLCacheSize(0), baseapp.SetPruning(pruningtypes.NewPruningOptions(pruningtypes.PruningEverything))}
+		}, What: "app.toml iavl-cache-size=0 together with pruning=everything, nothing else changed"},
+	{Name: "node-opt-pruning-everything", Binary: "fxsim", Env: []string{"GOMAXPROCS=2"}, BaseDesc: []string{"pruning=everything"},
+		Base: func() []func(*baseapp.BaseApp) {
+			return []func(*baseapp.BaseApp){baseapp.SetPruning(pruningtypes.NewPruningOptions(pruningtypes.PruningEverything))}
+		}, What: "app.toml pruning=everything (keep 2, every 10 blocks), nothing else changed, no restart"},
+	{Name: "node-opt-pruning-everything-restart", Binary: "fxsim", Env: []string{"GOMAXPROCS=2"}, Crash: true, BaseDesc: []string{"pruning=everything"},
+		Base: func() []func(*baseapp.BaseApp) {
+			return []func(*baseapp.BaseApp){baseapp.SetPruning(pruningtypes.NewPruningOptions(pruningtypes.PruningEverything))}
+		}, What: "app.toml pruning=everything on goleveldb, with seeded crashes / restarts (cold IAVL node cache after old versions were pruned)"},
 	// thorough tier only
 	{Name: "go126-crash-restart", Binary: "fxsim126", Env: []string{"GOMAXPROCS=8", "GOGC=20"}, Crash: true, NodeOpts: true, What: "go1.26.8 binary, seeded node options, goleveldb, crash/restart"},
 }
 
 const c17BaseKinds = 6      // kinds 0..5 rotate in the quick tier
-const c17SingleOptKinds = 2 // kinds 6..7
+const c17SingleOptKinds = 5 // kinds 6..10
 
 func c17KindByName(n string) *c17Kind {
 	for i := range c17Kinds {
@@ -84,52 +98,57 @@ type C17ReplicaResult struct {
 }
 
 // c17NodeOptions draws node-local options; none of them may influence results.
+// C17_SKIP_OPTS (comma separated substrings of option descriptions) drops options again: a
+// debugging aid to find out which option of a diverging combination is responsible.
 func c17NodeOptions(seed uint64) (nodeOpts map[string]string, extra []func(*baseapp.BaseApp), desc []string) {
 	rng := NewRng(seed ^ 0x5eed0517)
 	nodeOpts = map[string]string{}
+	var skip []string
+	if v := os.Getenv("C17_SKIP_OPTS"); v != "" {
+		skip = strings.Split(v, ",")
+	}
+	add := func(d string, opt func(*baseapp.BaseApp), k, v string) {
+		for _, s := range skip {
+			if s != "" && strings.Contains(d, s) {
+				return
+			}
+		}
+		desc = append(desc, d)
+		if opt != nil {
+			extra = append(extra, opt)
+		}
+		if k != "" {
+			nodeOpts[k] = v
+		}
+	}
 	// always: another min gas price, a tiny or odd IAVL cache
 	mgp := []string{"4000000000000FX", "1FX", "0.000000001FX,7usdt"}[rng.IntN(3)]
-	extra = append(extra, baseapp.SetMinGasPrices(mgp))
-	desc = append(desc, "min-gas-prices="+mgp)
-	cs := []int{0, 1, 7, 1000, 5_000_000}[rng.IntN(5)]
-	extra = append(extra, baseapp.SetIAVLCacheSize(cs))
-	desc = append(desc, fmt.Sprintf("iavl-cache-size=%d", cs))
-	switch rng.IntN(4) {
-	case 0:
-		extra = append(extra, baseapp.SetPruning(pruningtypes.NewPruningOptions(pruningtypes.PruningEverything)))
-		desc = append(desc, "pruning=everything")
-	case 1:
-		extra = append(extra, baseapp.SetPruning(pruningtypes.NewCustomPruningOptions(2, 10)))
-		desc = append(desc, "pruning=custom(keep 2, every 10)")
-	case 2:
-		extra = append(extra, baseapp.SetPruning(pruningtypes.NewPruningOptions(pruningtypes.PruningNothing)))
-		desc = append(desc, "pruning=nothing")
-	default:
-		desc = append(desc, "pruning=default")
+	add("min-gas-prices="+mgp, baseapp.SetMinGasPrices(mgp), "", "")
+	cs := []int{1, 7, 1000, 5_000_000}[rng.IntN(4)] // 0 has a kind of its own
+	add(fmt.Sprintf("iavl-cache-size=%d", cs), baseapp.SetIAVLCacheSize(cs), "", "")
+	// pruning strategies that delete versions have kinds of their own
+	if rng.IntN(2) == 0 {
+		add("pruning=nothing", baseapp.SetPruning(pruningtypes.NewPruningOptions(pruningtypes.PruningNothing)), "", "")
+	} else {
+		add("pruning=default", nil, "", "")
 	}
 	if rng.IntN(2) == 0 {
-		extra = append(extra, baseapp.SetIAVLDisableFastNode(true))
-		desc = append(desc, "iavl-disable-fastnode")
+		add("iavl-disable-fastnode", baseapp.SetIAVLDisableFastNode(true), "", "")
 	}
 	if rng.IntN(2) == 0 {
-		extra = append(extra, baseapp.SetInterBlockCache(cache.NewCommitKVStoreCacheManager(cache.DefaultCommitKVStoreCacheSize)))
-		desc = append(desc, "inter-block-cache")
+		add("inter-block-cache", baseapp.SetInterBlockCache(cache.NewCommitKVStoreCacheManager(cache.DefaultCommitKVStoreCacheSize)), "", "")
 	}
 	if rng.IntN(2) == 0 {
-		extra = append(extra, baseapp.SetTrace(true))
-		desc = append(desc, "trace")
+		add("trace", baseapp.SetTrace(true), "", "")
 	}
 	if rng.IntN(3) == 0 {
-		extra = append(extra, baseapp.SetIndexEvents([]string{"message.sender", "transfer.recipient"}))
-		desc = append(desc, "index-events=message.sender,transfer.recipient")
+		add("index-events=message.sender,transfer.recipient", baseapp.SetIndexEvents([]string{"message.sender", "transfer.recipient"}), "", "")
 	}
 	if rng.IntN(2) == 0 {
-		nodeOpts["evm.tracer"] = "struct"
-		desc = append(desc, "evm.tracer=struct")
+		add("evm.tracer=struct", nil, "evm.tracer", "struct")
 	}
 	if rng.IntN(2) == 0 {
-		nodeOpts["bypass-min-fee.msg-max-gas-usage"] = "1"
-		desc = append(desc, "bypass-min-fee.msg-max-gas-usage=1")
+		add("bypass-min-fee.msg-max-gas-usage=1", nil, "bypass-min-fee.msg-max-gas-usage", "1")
 	}
 	return nodeOpts, extra, desc
 }
@@ -157,7 +176,14 @@ func c17Guard(f func() error) (err error) {
 
 // open (re)creates the app over the node's DB; a fresh chain (height 0) gets InitChain.
 func (n *c17Node) open() error {
-	if n.kind.Crash {
+	if n.kind.Base != nil {
+		n.extra = n.kind.Base()
+	}
+	if n.kind.NodeOpts {
+		// fresh option objects for every process life (an inter-block cache must not survive a crash)
+		_, n.extra, _ = c17NodeOptions(n.seed)
+	}
+	if n.kind.Crash || os.Getenv("C17_DB") == "goleveldb" { // C17_DB: debugging aid
 		db, err := dbm.NewGoLevelDB("application", n.dir, nil)
 		if err != nil {
 			return fmt.Errorf("open goleveldb: %w", err)
@@ -201,6 +227,7 @@ func c17Replay(t *C17Transcript, kind *c17Kind, vseed uint64, dir string) *C17Re
 		n.nodeOpts[k] = kind.Fixed[k]
 		res.Options = append(res.Options, k+"="+kind.Fixed[k])
 	}
+	res.Options = append(res.Options, kind.BaseDesc...)
 	if kind.NodeOpts {
 		no, extra, desc := c17NodeOptions(vseed)
 		for k, v := range no {
@@ -389,7 +416,7 @@ func c17ReplicaMain(args []string) int {
 	if *dir == "" {
 		*dir = filepath.Join(filepath.Dir(*in), "db-"+strings.TrimSuffix(filepath.Base(*in), ".json")+"-"+kind.Name)
 	}
-	if kind.Crash {
+	if kind.Crash || os.Getenv("C17_DB") == "goleveldb" {
 		os.RemoveAll(*dir)
 		if err := os.MkdirAll(*dir, 0o755); err != nil {
 			fmt.Fprintln(os.Stderr, "scratch dir:", err)
